@@ -45,14 +45,14 @@ def sset(xs):
 
 
 def write_cfg(path, family, pool="S", owners=("a1e", "f"), spends=("t1", "u"), action=False, maxtx=1, maxout=1,
-              maxsp=1, emit=False, invariants=True):
+              maxsp=1, emit=False, invariants=True, inv="AllTheorems"):
     with open(path, "w") as f:
         f.write("SPECIFICATION Spec\nCONSTANTS\n")
         f.write('  Family = "%s"\n  OnePool = "%s"\n  OwnersDom = %s\n  SpendsDom = %s\n' % (family, pool, sset(owners), sset(spends)))
         f.write("  ActionShaped = %s\n  MaxTx = %d\n  MaxOut = %d\n  MaxSp = %d\n  Emit = %s\n"
                 % ("TRUE" if action else "FALSE", maxtx, maxout, maxsp, "TRUE" if emit else "FALSE"))
         if invariants:
-            f.write("INVARIANTS AllTheorems\n")
+            f.write("INVARIANTS %s\n" % inv)
         f.write("CHECK_DEADLOCK FALSE\n")
 
 
@@ -84,7 +84,9 @@ def families(ctx):
     mc = [
         ("D", dict(family="D", maxtx=2)),
         # the bound of the property text (<=3 txs x <=3 outputs x <=2 spends), reduced alphabet, one environment
-        ("A", dict(family="Q", pool="S", maxtx=3, maxout=3, maxsp=2, **red)),
+        # (positions, partition and error theorems; hash-tag independence and ranges on the smaller bound A2)
+        ("A", dict(family="Q", pool="S", maxtx=3, maxout=3, maxsp=2, inv="CoreTheorems", **red)),
+        ("A2", dict(family="P", pool="S", maxtx=3, maxout=2, maxsp=2, **red)),
         ("B", dict(family="Q", pool="O", owners=full_o + ("m",), spends=full_s + ("m",), action=True, maxtx=2, maxout=2)),
         ("Bs", dict(family="P", pool="S", owners=full_o + ("m",), spends=full_s + ("m",), maxtx=2, maxout=2, maxsp=1)),
         ("X", dict(family="X", maxtx=2)),
